@@ -48,6 +48,10 @@ REDUCE = ["sum", "mean", "max", "min", "prod_b", "var", "std_g", "logsumexp", "n
 CUMUL = ["cumsum", "cumprod_b", "cummax"]
 LINALG = ["det", "slogdet", "inv", "solve", "chol", "eigvalsh", "svdvals", "qr_r", "lax_chol", "lax_trisolve",
           "matpow2", "lnorm_fro", "trace_g"]
+# operation classes that once failed (custom_jvp functions, top_k / sort_kv, multi-output conds, singular derivatives at
+# symbolic zeros) were generated at top level only while they were open findings; all are repaired, so they are now
+# generated inside cond branches and called / vmapped bodies too
+NESTED_FAIL_OPS = True
 HAZARD = ["hz_sqrt", "hz_pow", "hz_arcsin", "hz_norm"]
 
 
@@ -551,7 +555,7 @@ class _Body:
     def g_hazard(self):
         """Singular-derivative operation on a value whose tangent is a symbolic
         zero under JAX (constant / integer-derived)."""
-        if not self.afo:  # top level only, so that attribution names this class and not the enclosing cond / call
+        if not self.afo:
             return None
         x = self.pick(lambda v: v["dt"] == F and v["sz"])
         if x is None:
@@ -612,7 +616,7 @@ class _Body:
         ins = [(v["dt"], v["sh"], v["sz"]) for v in ops]
         bodies = []
         for _ in range(2):
-            b = gen_body(self.rng, ins, int(self.rng.integers(1, 4)), self.depth - 1, False, want=kind, like_pos=like_pos)
+            b = gen_body(self.rng, ins, int(self.rng.integers(1, 4)), self.depth - 1, self.afo and NESTED_FAIL_OPS, want=kind, like_pos=like_pos)
             bodies.append(b)
         p = {"style": style, "t": bodies[0], "f": bodies[1], "kind": kind}
         sz = all(v["sz"] or v["dt"] != F for v in ops)
@@ -638,7 +642,7 @@ class _Body:
             extra = self.pick(lambda v: v["dt"] == F and v["id"] != x["id"])
             ops = [x] + ([extra] if extra is not None else [])
             ins = [(F, x["sh"][1:], x["sz"])] + [(v["dt"], v["sh"], v["sz"]) for v in ops[1:]]
-            b = gen_body(self.rng, ins, int(self.rng.integers(1, 4)), 0, False, want="anyf")
+            b = gen_body(self.rng, ins, int(self.rng.integers(1, 4)), 0, self.afo and NESTED_FAIL_OPS, want="anyf")
             rsh = tuple(_ret_type(b)[1])
             return self.add("call_vmap", ops, {"body": b}, F, (x["sh"][0],) + rsh, all(v["sz"] for v in ops))
         nops = int(self.rng.integers(1, 4))
@@ -654,7 +658,7 @@ class _Body:
             ops.append(v)
         ins = [(v["dt"], v["sh"], v["sz"]) for v in ops]
         two = bool(self.rng.random() < 0.3)
-        b = gen_body(self.rng, ins, int(self.rng.integers(2, 5)), self.depth - 1, False, want="anyf2" if two else "anyf")
+        b = gen_body(self.rng, ins, int(self.rng.integers(2, 5)), self.depth - 1, self.afo and NESTED_FAIL_OPS, want="anyf2" if two else "anyf")
         rsh = tuple(_ret_type(b)[1])
         sz = all(v["sz"] or v["dt"] != F for v in ops)
         return self.add("call_" + style.split("_")[0], ops, {"body": b, "dict": style.endswith("dict") or bool(self.rng.random() < 0.3), "two": two},
